@@ -81,7 +81,10 @@ func (g *GMap) equal(x *X, o *GMap) string {
 func (g *GMap) fresh(x *X, s *State, prefix string) *GMap {
 	n := &GMap{Name: g.Name, KSorts: g.KSorts}
 	n.Dom = x.sym(prefix+g.Name+".dom", g.wrap("Bool"))
-	n.Val = mapLeaves(g.Val, func(sc Sc) Val { return Sc{T: x.sym(prefix+g.Name, sc.Sort), Sort: sc.Sort} })
+	n.Val = mapLeaves(g.Val, func(sc Sc) Val {
+		so := x.sortOfTerm(sc.T, sc.Sort)
+		return Sc{T: x.sym(prefix+g.Name, so), Sort: so}
+	})
 	return n
 }
 
@@ -335,4 +338,17 @@ func (x *X) assumeBalNonNeg(s *State) {
 	a, d := x.bound("a", "Addr"), x.bound("d", "Str")
 	b := tm(s.ghost["Bal"])
 	s.assume(fmt.Sprintf("(forall ((%s Addr) (%s Str)) (! (>= (select (select %s %s) %s) 0) :pattern ((select (select %s %s) %s))))", a, d, b, a, d, b, a, d))
+}
+
+// sortOfTerm infers the SMT sort of a term (slice length leaves do not carry their sort).
+func (x *X) sortOfTerm(t, fallback string) string {
+	e, err := parseSx(t)
+	if err != nil {
+		return fallback
+	}
+	so, err := sortOfSx(e, x.symSort)
+	if err != nil {
+		return fallback
+	}
+	return so
 }
